@@ -176,6 +176,16 @@ def case_month(mon, y, m, ks):
 def case_table(mon):
     from pymeeus.Epoch import Epoch
     prev = None
+    # asking for the last leap second (repeatedly) leaves the table as it was
+    for _k in range(3):
+        mon.evals += 1
+        try:
+            last = Epoch.get_last_leap_second()
+        except Exception as ex:
+            mon.dev("last_leap_second", {"call": _k, "raised": repr(ex)})
+            continue
+        mon.check("last_leap_second", tuple(last) == (2016, 12, 31.0, 27),
+                  {"call": _k, "get_last_leap_second": list(last)})
     for y in range(1950, 2101):
         for m in range(1, 13):
             mon.evals += 1
@@ -242,6 +252,13 @@ def run(mon, spec):
     if not dc.self_check():
         raise RuntimeError("day counter self-check failed")
     if spec["part"] == "utc":
+        # history: the rarely used query has been made before the conversions
+        try:
+            from pymeeus.Epoch import Epoch
+            Epoch.get_last_leap_second()
+            Epoch.get_last_leap_second()
+        except Exception:
+            pass
         for y in spec["years"]:
             for m in range(1, 13):
                 mon.begin("month", [y, m, spec["ks"]])
